@@ -630,7 +630,9 @@ theorem validateInherentImpls_eq (impls : List T) :
           match impls with
           | [] => .ok ()
           | first :: rest =>
-              firstError (rest.map (fun item => compareInherentItems (implItemSigs first) (implItemSigs item))) := rfl
+              match firstError (rest.map (fun item => compareInherentItems (implItemSigs first) (implItemSigs item))) with
+              | .error d => .error d
+              | .ok () => firstError (rest.map (fun item => compareInherentVis (implItems first) (implItems item))) := rfl
 
 theorem traitHeader_cases (trait_ item : T) :
     traitHeader trait_ item = .ok () ∨ traitHeader trait_ item = .error .expectedTraitImpl ∨
